@@ -835,6 +835,46 @@ def expandImpls (bind : Nat → String → String) (attrs : List (List Char)) (d
   (if derivesTrait attrs "ToString".toList then [genString bind d] else []) ++
   (if derivesTrait attrs "ToJson".toList then [genJson bind d] else [])
 
+/-! ### the attribute's text: `ast/src/lower.rs::lower_attributes`
+
+The syntax node of an attribute holds its tokens and every trivia token up to the next token of the
+file (`parser.rs` attaches trailing trivia to the node that is open).  `lower_attributes` takes the text
+of the node's tokens except the comment tokens.  On characters, for the token kinds an attribute is made
+of (punctuation, identifiers, string literals `"…"` with `\`-escapes, whitespace, `//` comments): -/
+
+inductive LexMode where
+  | code | slash | str | esc | comment
+  deriving DecidableEq, Repr
+
+/-- drop every `//` comment (up to, not including, the end of the line) that starts outside a string
+    literal; `slash` = one `/` read in code and not yet written -/
+def stripComments : LexMode → List Char → List Char
+  | .slash, [] => ['/']
+  | _, [] => []
+  | .code, c :: cs =>
+    if c = '"' then c :: stripComments .str cs
+    else if c = '/' then stripComments .slash cs
+    else c :: stripComments .code cs
+  | .slash, c :: cs =>
+    if c = '/' then stripComments .comment cs
+    else if c = '"' then '/' :: c :: stripComments .str cs
+    else '/' :: c :: stripComments .code cs
+  | .str, c :: cs =>
+    if c = '\\' then c :: stripComments .esc cs
+    else if c = '"' then c :: stripComments .code cs
+    else c :: stripComments .str cs
+  | .esc, c :: cs => c :: stripComments .str cs
+  | .comment, c :: cs => if c = '\n' then c :: stripComments .code cs else stripComments .comment cs
+
+/-- `Attribute::text` of an attribute whose syntax node has the source text `raw` -/
+def attrText (raw : List Char) : List Char := stripComments .code raw
+
+/-- `find_derive_attr` over the attributes as they stand in the source (node texts) -/
+def derivesTraitSrc (raws : List (List Char)) (tr : List Char) : Bool := derivesTrait (raws.map attrText) tr
+
+def expandImplsSrc (bind : Nat → String → String) (raws : List (List Char)) (d : Def) : List GMethod :=
+  expandImpls bind (raws.map attrText) d
+
 /-! ### what the generated bodies compute -/
 
 /-- the runtime helpers the bodies call by name (`builtin.gom`, `go/runtime.rs`) -/
@@ -894,5 +934,11 @@ def GExpr.scoped (locals : List String) : GExpr → Bool
     variable means the field it was generated for) and no helper call is captured -/
 def GMethod.scoped (m : GMethod) : Bool :=
   m.arms.all fun a => allDistinct a.binders && a.body.scoped (a.binders ++ [m.param])
+
+/-- hygiene against the package the impl is expanded in: `EPath` of one identifier resolves to a local, else to a
+    top-level definition of the CURRENT PACKAGE (`tops`), else to a builtin (`name_resolution.rs::resolve_expr`) —
+    so a function of the package spelled like a helper takes the generated call -/
+def GMethod.hygienic (tops : List String) (m : GMethod) : Bool :=
+  m.arms.all fun a => a.body.scoped (a.binders ++ ([m.param] ++ tops))
 
 end Goml.Derive
